@@ -391,7 +391,7 @@ def finish(agg, pid, tier, seed, t0, meta, floors):
         "coverage": {
             "evaluations": agg["evaluations"],
             "distinct_nontrivial": distinct,
-            "rule": meta["rule"],
+            "rule": meta["rule"] + " (The distinct count is the size of the union of per-process hash sets, each capped at 60 000 entries: a lower bound.)",
             "samples": agg["samples"][:10] or [{"note": "no sample recorded"}],
             "exhaustive": False,
             "exhaustive_over": sorted(agg["exhaustive_parts"]),
